@@ -11,7 +11,7 @@
    the Connection/sink state, the handle state and the ghost log (accepted, delivered, ...) of x. *)
 From Coq Require Import List NArith Bool.
 From V.gen Require Consts.
-From V.C12 Require Import Model Proofs Inv2 Async Sched.
+From V.C12 Require Import Model Proofs Inv2 Async Sched Progress.
 Import ListNotations.
 Open Scope N_scope.
 
@@ -273,6 +273,44 @@ Theorem C12_no_read_without_slot :
     carrier (glo s' (negb x)) = carrier (glo s (negb x)) /\ e_nq (hn s' x) = e_nq (hn s x).
 Proof. exact read_needs_slot. Qed.
 Print Assumptions C12_no_read_without_slot.
+
+(* ---------------------------------------------------------------- nothing is stuck behind a free slot *)
+
+(* Each stage of the pipeline moves its head on as soon as the next stage has room, whatever the state.
+   (1) One poll of the sending Connection with the carrier accepting writes sends the parked
+   notification and both queues completely (sizes within the maximum), in an order that keeps each
+   mode's order. *)
+Theorem C12_outbound_progress :
+  forall (c : cfg) (x : bool) (s : st),
+  e_alive (cn s x) = true -> wgate (glo s x) = true ->
+  Forall (fun n => n_len n <= c_max (ecf c x)) (opt_list (e_cur (cn s x)) ++ e_sq (cn s x) ++ e_aq (cn s x)) ->
+  let '(s1, refused) := out_phase c x s in
+  refused = false /\ e_cur (cn s1 x) = None /\ e_sq (cn s1 x) = [] /\ e_aq (cn s1 x) = [] /\ e_sk (cn s1 x) = [] /\
+  (Forall (fun n => n_sync n = true) (e_sq (cn s x)) -> Forall (fun n => n_sync n = false) (e_aq (cn s x)) ->
+   forall k m, proj k m (carrier (glo s1 x)) = proj k m (pipe s x)).
+Proof. exact outbound_progress. Qed.
+Print Assumptions C12_outbound_progress.
+
+(* (2) One poll of the receiving Connection that can get a slot of the handle channel moves (at least)
+   the first frame of the carrier into that channel. *)
+Theorem C12_inbound_progress :
+  forall (c : cfg) (y : bool) (s : st) (n : notif) (rest : list notif),
+  e_alive (cn s y) = true -> e_shut (cn s y) = false -> killed s = false ->
+  snd (out_phase c y s) = false -> can_reserve c y s = true ->
+  rgate (glo s (negb y)) = true -> carrier (glo s (negb y)) = n :: rest -> n_len n <= c_max (ecf c y) ->
+  exists more, e_nq (hn (conn_poll c y s) y) = e_nq (hn s y) ++ n :: more.
+Proof. exact inbound_progress. Qed.
+Print Assumptions C12_inbound_progress.
+
+(* (3) A handle poll with any budget left and no event pending reports the head of its channel if it
+   belongs to the stream whose sink the handle holds. *)
+Theorem C12_handle_progress :
+  forall (c : cfg) (y : bool) (s : st) (k : N) (n : notif) (q : list notif) (b : N),
+  e_evs (hn s y) = [] -> e_peers (hn s y) = Some k -> e_nq (hn s y) = n :: q -> n_per n = k -> b <> 0 ->
+  let '(s', e) := h_poll c y b s in
+  e = UNotif n /\ e_nq (hn s' y) = q /\ e_del (gl s' y) = e_del (gl s y) ++ [n].
+Proof. exact handle_progress. Qed.
+Print Assumptions C12_handle_progress.
 
 (* ---------------------------------------------------------------- the quiescence stream *)
 
